@@ -626,6 +626,45 @@ class _Ctx:
             return nested
         return [ast.For(target=gen.target, iter=gen.iter, body=inner, orelse=[], type_comment=None)]
 
+    def _desugar_multicomp(self, s: ast.stmt) -> Optional[List[ast.stmt]]:
+        """`x = [e for a in A for b in B if c]` / `return [...]` with two or more generators: the nested loops with `append` that
+        the comprehension is defined as (targets renamed apart - comprehension variables are local to it)."""
+        if isinstance(s, ast.Return) and isinstance(s.value, ast.ListComp):
+            comp, name = s.value, f"_lc{s.lineno}_{s.col_offset}"
+        elif isinstance(s, ast.Assign) and len(s.targets) == 1 and isinstance(s.targets[0], ast.Name) and isinstance(s.value, ast.ListComp) \
+                and not any(isinstance(y, ast.Name) and y.id == s.targets[0].id for y in ast.walk(s.value)):
+            comp, name = s.value, s.targets[0].id
+        else:
+            return None
+        if len(comp.generators) < 2 or any(g.is_async for g in comp.generators) or \
+                any(isinstance(y, (ast.Lambda, ast.ListComp, ast.SetComp, ast.DictComp, ast.GeneratorExp, ast.NamedExpr)) for y in ast.walk(comp.elt)):
+            return None
+        import copy
+        tnames = {y.id for g in comp.generators for y in ast.walk(g.target) if isinstance(y, ast.Name)}
+        ren = {n: f"{n}_c{s.lineno}" for n in tnames}
+
+        class R(ast.NodeTransformer):
+            def visit_Name(s_, x):
+                return ast.copy_location(ast.Name(id=ren.get(x.id, x.id), ctx=x.ctx), x)
+        # a generator's iterable is evaluated in the scope of the generators before it: rename there too, except in the first
+        gens = []
+        for i, g in enumerate(comp.generators):
+            it = copy.deepcopy(g.iter) if i == 0 else R().visit(copy.deepcopy(g.iter))
+            gens.append((R().visit(copy.deepcopy(g.target)), it, [R().visit(copy.deepcopy(c)) for c in g.ifs]))
+        body = [ast.Expr(value=ast.Call(func=ast.Attribute(value=ast.Name(id=name, ctx=ast.Load()), attr='append', ctx=ast.Load()),
+                                        args=[R().visit(copy.deepcopy(comp.elt))], keywords=[]))]
+        for tgt, it, ifs in reversed(gens):
+            for c in reversed(ifs):
+                body = [ast.If(test=c, body=body, orelse=[])]
+            body = [ast.For(target=tgt, iter=it, body=body, orelse=[], type_comment=None)]
+        out = [ast.Assign(targets=[ast.Name(id=name, ctx=ast.Store())], value=ast.List(elts=[], ctx=ast.Load()))] + body
+        if isinstance(s, ast.Return):
+            out.append(ast.Return(value=ast.Name(id=name, ctx=ast.Load())))
+        for o in out:
+            ast.copy_location(o, s)
+            ast.fix_missing_locations(o)
+        return out
+
     def _desugar_extend(self, s: ast.stmt) -> Optional[List[ast.stmt]]:
         """`lst.extend(<generator expression / map / filter>)` on a local list: the loop with `lst.append(element)`."""
         if not (isinstance(s, ast.Expr) and isinstance(s.value, ast.Call) and isinstance(s.value.func, ast.Attribute) and
@@ -744,7 +783,8 @@ class _Ctx:
         for s in stmts:
             ds = getattr(s, '_desugared', None)
             if ds is None:
-                ds = self._desugar_setdefault(s) or self._desugar_ifexp(s) or self._desugar_shortcircuit(s) or self._desugar_extend(s) or False
+                ds = self._desugar_setdefault(s) or self._desugar_ifexp(s) or self._desugar_shortcircuit(s) or self._desugar_extend(s) or \
+                    self._desugar_multicomp(s) or False
                 try:
                     s._desugared = ds
                 except Exception:
@@ -786,10 +826,78 @@ class _Ctx:
             out.extend(m(s, st))
         return out
 
+    def st_Match(self, s, st):
+        """`match subject:` with value / singleton / class (no sub-patterns) / or / wildcard / capture patterns: the if-elif chain
+        it is defined as (subject evaluated once; `case Cls():` is isinstance, `case 'lit':` is ==, `case None:` is `is`)."""
+        ds = getattr(s, '_match_chain', None)
+        if ds is None:
+            pre = []
+            subj = s.subject
+            if not isinstance(subj, ast.Name):
+                tmp = f"_m{s.lineno}_{s.col_offset}"
+                pre.append(ast.Assign(targets=[ast.Name(id=tmp, ctx=ast.Store())], value=subj))
+                subj = ast.Name(id=tmp, ctx=ast.Load())
+
+            def test(pat):
+                """(test expression or None for always-true, [binding statements])"""
+                if isinstance(pat, ast.MatchValue):
+                    return ast.Compare(left=subj, ops=[ast.Eq()], comparators=[pat.value]), []
+                if isinstance(pat, ast.MatchSingleton):
+                    return ast.Compare(left=subj, ops=[ast.Is()], comparators=[ast.Constant(value=pat.value)]), []
+                if isinstance(pat, ast.MatchClass) and not pat.patterns and not pat.kwd_patterns:
+                    return ast.Call(func=ast.Name(id='isinstance', ctx=ast.Load()), args=[subj, pat.cls], keywords=[]), []
+                if isinstance(pat, ast.MatchOr):
+                    parts = [test(q) for q in pat.patterns]
+                    if any(b for _, b in parts):
+                        raise AnalysisError(f"{self.fn.module.relpath}:{s.lineno}: captures inside an or-pattern are not supported by the CFG builder")
+                    if any(t is None for t, _ in parts):
+                        return None, []
+                    return ast.BoolOp(op=ast.Or(), values=[t for t, _ in parts]), []
+                if isinstance(pat, ast.MatchAs):
+                    bind = [ast.Assign(targets=[ast.Name(id=pat.name, ctx=ast.Store())], value=subj)] if pat.name else []
+                    if pat.pattern is None:
+                        return None, bind
+                    t, b = test(pat.pattern)
+                    return t, b + bind
+                raise AnalysisError(f"{self.fn.module.relpath}:{s.lineno}: match pattern {type(pat).__name__} is not supported by the CFG builder")
+            chain = None
+            for case in reversed(s.cases):
+                t, bind = test(case.pattern)
+                body = bind + case.body
+                if case.guard is not None:
+                    if bind:
+                        raise AnalysisError(f"{self.fn.module.relpath}:{s.lineno}: a guard on a capturing case is not supported by the CFG builder")
+                    t = case.guard if t is None else ast.BoolOp(op=ast.And(), values=[t, case.guard])
+                if t is None:
+                    chain = body
+                else:
+                    chain = [ast.If(test=t, body=body, orelse=chain or [])]
+            ds = pre + (chain or [])
+            for o in ds:
+                ast.copy_location(o, s)
+                ast.fix_missing_locations(o)
+            try:
+                s._match_chain = ds
+            except Exception:
+                pass
+        return self.block(ds, [st])
+
     def st_Pass(self, s, st):
         return [st]
 
-    st_Global = st_Nonlocal = st_Import = st_ImportFrom = st_Pass
+    st_Global = st_Nonlocal = st_Pass
+
+    def st_Import(self, s, st):
+        # a function-local import binds a local name to the module
+        for a in s.names:
+            st.env[a.asname or a.name.split('.')[0]] = Sym(a.name if a.asname else a.name.split('.')[0])
+        return [st]
+
+    def st_ImportFrom(self, s, st):
+        for a in s.names:
+            if a.name != '*' and s.module and not s.level:
+                st.env[a.asname or a.name] = Sym(f"{s.module}.{a.name}")
+        return [st]
 
     def st_FunctionDef(self, s, st):
         q = f"{self.fn.qualname}.<locals>.{s.name}"
@@ -1062,6 +1170,15 @@ class _Ctx:
         return outs
 
     def _st_AugAssign(self, s, st):
+        if isinstance(s.op, ast.BitOr) and isinstance(s.target, ast.Name):
+            cur0 = strip_at(st.env.get(s.target.id))
+            if isinstance(cur0, Fresh) and cur0.kind in ('dict', 'call:dict', 'dictcomp'):
+                # d |= other (a dict built in this call): d.update(other)
+                upd = ast.Expr(value=ast.Call(func=ast.Attribute(value=ast.Name(id=s.target.id, ctx=ast.Load()), attr='update', ctx=ast.Load()),
+                                              args=[s.value], keywords=[]))
+                ast.copy_location(upd, s)
+                ast.fix_missing_locations(upd)
+                return self.stmt(upd, [st])
         cur = self.ev(_load(s.target), st)
         v = self.ev(s.value, st, stmt=s)
         is_list = isinstance(cur, Fresh) and cur.kind in ('list', 'call:list', 'listcomp', 'copy')
@@ -1718,9 +1835,6 @@ class _Ctx:
             outs = fin
         return outs
 
-    def st_Match(self, s, st):
-        raise AnalysisError(f"{self.fn.module.relpath}:{s.lineno}: match statements are not supported by the CFG builder")
-
     # ------------------------------------------------------------------ assignment / stores
     def versioned(self, st: State, container: Term) -> Term:
         v = st.ver.get(container, 0)
@@ -2047,6 +2161,8 @@ class _Ctx:
             if k == 'ext':
                 if o == 'sys.maxsize':
                     return Sym('sys.maxsize')
+                if o.startswith('collections.abc.'):
+                    o = 'typing.' + o[16:]          # typing.Iterable is an alias of collections.abc.Iterable
                 return Sym(o)
             if k == 'module':
                 return Sym(o.name)
@@ -2089,6 +2205,8 @@ class _Ctx:
                         return self.ev(cv, st)
                 # fall through to a symbolic class attribute
             elif k == 'ext':
+                if isinstance(o, str) and o.startswith('collections.abc.'):
+                    o = 'typing.' + o[16:]
                 return Sym(o)
             elif k == 'func':
                 return Sym('<func ' + o.qualname + '>')
@@ -2193,7 +2311,58 @@ class _Ctx:
             items.append(TupleT((self.ev(k, st) if k is not None else Const('**'), self.ev(v, st))))
         return Fresh('dict', tuple(items), e.lineno)
 
+    def _fused(self, e, st):
+        """A one-generator comprehension over a generator expression / map / filter / zip written in place (or a local bound once
+        to one): the same comprehension over the inner iterable, with the outer target replaced by the inner element."""
+        fz = getattr(e, '_fused_node', None)
+        if fz is not None:
+            return fz or None
+        out = False
+        try:
+            if len(e.generators) == 1 and not e.generators[0].is_async:
+                g = e.generators[0]
+                inner = g.iter
+                if isinstance(inner, ast.Call):
+                    inner = self._functional_as_genexp(inner, st)
+                if isinstance(inner, ast.GeneratorExp) and len(inner.generators) == 1 and not inner.generators[0].is_async:
+                    sub = None
+                    if isinstance(g.target, ast.Name):
+                        sub = {g.target.id: inner.elt}
+                    elif isinstance(g.target, ast.Tuple) and isinstance(inner.elt, ast.Tuple) and len(g.target.elts) == len(inner.elt.elts) \
+                            and all(isinstance(t, ast.Name) for t in g.target.elts):
+                        sub = {t.id: v for t, v in zip(g.target.elts, inner.elt.elts)}
+                    inner_names = {y.id for y in ast.walk(inner.generators[0].target) if isinstance(y, ast.Name)}
+                    outer_free = {y.id for x in [e.elt if hasattr(e, 'elt') else e.value] + ([e.key] if hasattr(e, 'key') else []) + list(g.ifs)
+                                  for y in ast.walk(x) if isinstance(y, ast.Name)}
+                    if sub is not None and not (inner_names & (outer_free - set(sub))):
+                        import copy
+
+                        class S(ast.NodeTransformer):
+                            def visit_Name(s_, x):
+                                return copy.deepcopy(sub[x.id]) if x.id in sub and isinstance(x.ctx, ast.Load) else x
+                        ig = inner.generators[0]
+                        ng = ast.comprehension(target=ig.target, iter=ig.iter, ifs=list(ig.ifs) + [S().visit(copy.deepcopy(c)) for c in g.ifs], is_async=0)
+                        new = copy.copy(e)
+                        new.generators = [ng]
+                        if hasattr(e, 'elt'):
+                            new.elt = S().visit(copy.deepcopy(e.elt))
+                        else:
+                            new.key = S().visit(copy.deepcopy(e.key))
+                            new.value = S().visit(copy.deepcopy(e.value))
+                        ast.fix_missing_locations(new)
+                        out = new
+        except Exception:
+            out = False
+        try:
+            e._fused_node = out
+        except Exception:
+            pass
+        return out or None
+
     def _comp(self, e, st, kind, elt_expr, key_expr=None):
+        fz = self._fused(e, st)
+        if fz is not None:
+            return self._comp(fz, st, kind, fz.elt if hasattr(fz, 'elt') else fz.value, fz.key if hasattr(fz, 'key') else None)
         pre_it = None
         if kind in ('listcomp', 'gen') and len(e.generators) == 1 and not e.generators[0].ifs and key_expr is None:
             it0 = self.ev(e.generators[0].iter, st)
@@ -2494,6 +2663,51 @@ class _Ctx:
                     if r_ and r_[0] == 'ext' and r_[1] == 'itertools.repeat':
                         return a.args[0]
                 return None
+            def cnt(a):
+                if isinstance(a, ast.Call) and len(a.args) <= 1 and not a.keywords:
+                    r_ = self.prog.resolve_name(a.func.id, self.fn.module) if isinstance(a.func, ast.Name) else \
+                        self.prog.resolve_expr_static(a.func, self.fn.module) if isinstance(a.func, ast.Attribute) else None
+                    if r_ is None and isinstance(a.func, ast.Name) and st.env.get(a.func.id) == Sym('itertools.count'):
+                        r_ = ('ext', 'itertools.count')         # imported inside the function
+                    if r_ and r_[0] == 'ext' and r_[1] == 'itertools.count':
+                        return a.args[0] if a.args else ast.Constant(value=0)
+                return None
+            c1 = cnt(e.args[1])
+            if c1 is not None and cnt(e.args[0]) is None:
+                # zip(X, count(k)): ((x, i) for i, x in enumerate(X, k))
+                iv, xv2 = f"_ci{e.lineno}_{e.col_offset}", f"_cx{e.lineno}_{e.col_offset}"
+                en = ast.Call(func=ast.Name(id='enumerate', ctx=ast.Load()), args=[e.args[0]] + ([c1] if not (isinstance(c1, ast.Constant) and c1.value == 0) else []), keywords=[])
+                g = ast.GeneratorExp(elt=ast.Tuple(elts=[ast.Name(id=xv2, ctx=ast.Load()), ast.Name(id=iv, ctx=ast.Load())], ctx=ast.Load()),
+                                     generators=[ast.comprehension(target=ast.Tuple(elts=[ast.Name(id=iv, ctx=ast.Store()), ast.Name(id=xv2, ctx=ast.Store())], ctx=ast.Store()),
+                                                                   iter=en, ifs=[], is_async=0)])
+                ast.copy_location(g, e)
+                ast.fix_missing_locations(g)
+                return g
+
+            def mapped(a, other):
+                """F when a is map(F, X) (or a local bound once to it) over the same re-iterable name X as `other`."""
+                if isinstance(a, ast.Name) and a.id in st.env:
+                    defs = [n for n in ast.walk(self.fn.node) if isinstance(n, ast.Assign) and len(n.targets) == 1 and
+                            isinstance(n.targets[0], ast.Name) and n.targets[0].id == a.id]
+                    stores = [n for n in ast.walk(self.fn.node) if isinstance(n, ast.Name) and n.id == a.id and isinstance(n.ctx, (ast.Store, ast.Del))]
+                    if len(defs) == 1 and len(stores) == 1:
+                        a = defs[0].value
+                if isinstance(a, ast.Call) and isinstance(a.func, ast.Name) and a.func.id == 'map' and len(a.args) == 2 and not a.keywords \
+                        and isinstance(a.args[1], ast.Name) and isinstance(other, ast.Name) and a.args[1].id == other.id:
+                    return a
+                return None
+            for xi, mi in ((0, 1), (1, 0)):
+                mp = mapped(e.args[mi], e.args[xi])
+                if mp is not None:
+                    # zip(X, map(F, X)) over a re-iterable X: ((x, F(x)) for x in X)
+                    inner = self._functional_as_genexp(mp, st)
+                    if isinstance(inner, ast.GeneratorExp):
+                        v0 = inner.generators[0].target
+                        pair = [ast.Name(id=v0.id, ctx=ast.Load()), inner.elt]
+                        g = ast.GeneratorExp(elt=ast.Tuple(elts=pair if xi == 0 else pair[::-1], ctx=ast.Load()), generators=inner.generators)
+                        ast.copy_location(g, e)
+                        ast.fix_missing_locations(g)
+                        return g
             k0, k1 = rep(e.args[0]), rep(e.args[1])
             if (k0 is None) != (k1 is None):
                 var = f"_z{e.lineno}_{e.col_offset}"
@@ -2580,8 +2794,72 @@ class _Ctx:
         ast.fix_missing_locations(g)
         return g
 
+    def _operator_getter(self, f: ast.expr, st: State):
+        """The Call node `operator.attrgetter(...)` / `itemgetter(...)` / `methodcaller(...)` that the callee expression f denotes:
+        written in place, or bound once at module level (or to a local that is not rebound) to such a call with constant /
+        static arguments."""
+        def is_getter(c):
+            if not (isinstance(c, ast.Call) and not c.keywords and c.args):
+                return None
+            r_ = self.prog.resolve_name(c.func.id, self.fn.module) if isinstance(c.func, ast.Name) else \
+                self.prog.resolve_expr_static(c.func, self.fn.module) if isinstance(c.func, ast.Attribute) else None
+            if r_ and r_[0] == 'ext' and r_[1] in ('operator.attrgetter', 'operator.itemgetter', 'operator.methodcaller'):
+                if all(isinstance(a, (ast.Constant, ast.Name, ast.Attribute)) for a in c.args):
+                    return r_[1][9:], c
+            return None
+        if isinstance(f, ast.Call):
+            return is_getter(f)
+        if isinstance(f, ast.Name):
+            if f.id in st.env:
+                defs = [n for n in ast.walk(self.fn.node) if isinstance(n, ast.Assign) and len(n.targets) == 1 and
+                        isinstance(n.targets[0], ast.Name) and n.targets[0].id == f.id]
+                stores = [n for n in ast.walk(self.fn.node) if isinstance(n, ast.Name) and n.id == f.id and isinstance(n.ctx, (ast.Store, ast.Del))]
+                if len(defs) == 1 and len(stores) == 1:
+                    g = is_getter(defs[0].value)
+                    if g and all(isinstance(a, ast.Constant) for a in g[1].args):
+                        return g
+                return None
+            r2 = self.prog.resolve_name(f.id, self.fn.module)
+            if r2 is not None and r2[0] == 'modattr':
+                return is_getter(r2[1][0].assigns.get(r2[1][1]))
+        return None
+
     def ex_Call(self, e: ast.Call, st: State) -> Term:
         f = e.func
+        og = getattr(e, '_getter', None)
+        if og is None:
+            og = False
+            if len(e.args) == 1 and not e.keywords and not isinstance(e.args[0], ast.Starred):
+                try:
+                    g = self._operator_getter(f, st)
+                except Exception:
+                    g = None
+                if g:
+                    kind, c = g
+                    obj = e.args[0]
+                    if kind == 'attrgetter' and all(isinstance(a, ast.Constant) and isinstance(a.value, str) and
+                                                    all(p_.isidentifier() for p_ in a.value.split('.')) for a in c.args):
+                        def chain(path):
+                            cur = obj
+                            for p_ in path.split('.'):
+                                cur = ast.Attribute(value=cur, attr=p_, ctx=ast.Load())
+                            return cur
+                        parts = [chain(a.value) for a in c.args]
+                        og = parts[0] if len(parts) == 1 else ast.Tuple(elts=parts, ctx=ast.Load())
+                    elif kind == 'itemgetter':
+                        parts = [ast.Subscript(value=obj, slice=a, ctx=ast.Load()) for a in c.args]
+                        og = parts[0] if len(parts) == 1 else ast.Tuple(elts=parts, ctx=ast.Load())
+                    elif kind == 'methodcaller' and isinstance(c.args[0], ast.Constant) and isinstance(c.args[0].value, str):
+                        og = ast.Call(func=ast.Attribute(value=obj, attr=c.args[0].value, ctx=ast.Load()), args=list(c.args[1:]), keywords=[])
+                    if og:
+                        ast.copy_location(og, e)
+                        ast.fix_missing_locations(og)
+            try:
+                e._getter = og
+            except Exception:
+                pass
+        if og:
+            return self.ev(og, st)
         ge = getattr(e, '_as_genexp', None)
         if ge is None:
             ge = self._functional_as_genexp(e, st) or False
@@ -2642,6 +2920,8 @@ class _Ctx:
                     (self.prog.resolve_name(f.id, self.fn.module) if isinstance(f, ast.Name) and f.id not in st.env else None)
             except Exception:
                 r_op = None
+            if r_op and r_op[0] == 'ext' and r_op[1] == 'typing.cast' and len(args) == 2:
+                return args[1]          # the identity function at run time
             if r_op and r_op[0] == 'ext' and isinstance(r_op[1], str) and r_op[1].startswith('operator.'):
                 opn = r_op[1][9:]
                 OPS = {'lt': ast.Lt, 'le': ast.LtE, 'gt': ast.Gt, 'ge': ast.GtE, 'eq': ast.Eq, 'ne': ast.NotEq, 'is_': ast.Is, 'is_not': ast.IsNot}
@@ -2723,6 +3003,14 @@ class _Ctx:
                 if isinstance(args[1], TupleT):
                     return BoolT(f_or(*[AIsInst(args[0], t) for t in args[1].items]))
                 return BoolT(AIsInst(args[0], args[1]))
+            if b == 'issubclass' and len(args) == 2 and isinstance(args[0], App) and args[0].fn == 'type' and len(args[0].args) == 1:
+                # issubclass(type(x), T) is what isinstance(x, T) asks (an object lying about __class__ aside)
+                x0 = args[0].args[0]
+                if isinstance(args[1], TupleT):
+                    return BoolT(f_or(*[AIsInst(x0, t) for t in args[1].items]))
+                return BoolT(AIsInst(x0, args[1]))
+            if b == 'divmod' and len(args) == 2 and not kw:
+                return TupleT((self.binop(ast.FloorDiv(), args[0], args[1], e), self.binop(ast.Mod(), args[0], args[1], e)))
             if b == 'hasattr' and len(args) == 2:
                 return BoolT(ATruthy(App('hasattr', tuple(args))))
             if b == 'vars' and len(args) == 1 and not kw:
@@ -2730,6 +3018,10 @@ class _Ctx:
                 return st.heap.get(pth, pth)
             if b == 'object' and not args and not kw:
                 return Fresh('call:object', (), e.lineno)
+            if b == 'getattr' and len(args) == 3 and not kw and self.is_sentinel(args[2]):
+                # getattr(o, name, MARKER) with a private marker: the attribute when hasattr(o, name), else the marker - so
+                # `... is not MARKER` is exactly hasattr(o, name)
+                return IfT(ATruthy(App('hasattr', (args[0], args[1]))), App('getattr', (args[0], args[1])), args[2])
             if b == 'getattr' and len(args) >= 2 and isinstance(args[1], Const) and isinstance(args[1].value, str) and \
                     not isinstance(args[0], App):
                 pth = Attr(args[0], args[1].value)
